@@ -1477,6 +1477,15 @@ void timed_block_reset()
     tl_self->tb_max_ns = -1;
     tl_self->tb_latest_deadline = -1;
 }
+void forbid_blocking_on(const void* obj, const char* cls)
+{
+    tl_self->forbid_obj = obj;
+    if (obj) tl_self->forbid_cls = cls;
+}
+const void* last_lock_obj()
+{
+    return tl_self->last_lock;
+}
 void forbid_blocking(bool on, const char* cls)
 {
     tl_self->forbid_block = on;
